@@ -25,7 +25,7 @@ def run_program(prog, seed, sg=None, repeat_fixed=1):
 
     def put_t(t, tag=""):
         put(t.data, tag)
-        g = t.grad
+        g = t.grad if t.has_grad() else None
         if g is not None:
             put(g.data, tag + ".grad")
 
@@ -48,9 +48,21 @@ def run_program(prog, seed, sg=None, repeat_fixed=1):
             put_t(t, tag)
         elif k == "layer":
             m = {"linear": lambda: nn.Linear(s["i"], s["o"]), "conv1d": lambda: nn.Conv1d(s["i"], s["o"], 3),
-                 "conv2d": lambda: nn.Conv2d(s["i"], s["o"], (3, 2)), "bn": lambda: nn.BatchNorm1d(s["o"])}[s["kind"]]()
+                 "conv2d": lambda: nn.Conv2d(s["i"], s["o"], (3, 2)),
+                 "bn": lambda: nn.BatchNorm1d(s["o"], affine=s.get("affine", True), momentum=s.get("momentum", 0.1)),
+                 "bn2d": lambda: nn.BatchNorm2d(s["o"], affine=s.get("affine", True))}[s["kind"]]()
             for p in m.parameters():
                 put_t(p, tag)
+            if s["kind"].startswith("bn"):
+                # buffers are part of the layer's state: fresh, after training forwards, and as used in eval mode
+                put(m.running_mean.data, tag + ".rm0"); put(m.running_var.data, tag + ".rv0")
+                shape = (4, s["o"]) if s["kind"] == "bn" else (2, s["o"], 2, 2)
+                xb = Tensor((np.arange(int(np.prod(shape)), dtype=np.float32).reshape(shape) % 7) / 3.0)
+                for _ in range(2):
+                    put_t(m(xb), tag + ".train_out")
+                put(m.running_mean.data, tag + ".rm"); put(m.running_var.data, tag + ".rv")
+                m.eval()
+                put_t(m(xb), tag + ".eval_out")
         elif k == "dropout":
             m = nn.Dropout(s["p"])
             x = Tensor(np.arange(1, 1 + int(np.prod(s["shape"])), dtype=np.float32).reshape(s["shape"]), requires_grad=True)
@@ -74,7 +86,7 @@ def run_program(prog, seed, sg=None, repeat_fixed=1):
                 if s["dropout"]:
                     layers.append(nn.Dropout(0.3))
                 if s["bn"]:
-                    layers.append(nn.BatchNorm1d(5))
+                    layers.append(nn.BatchNorm1d(5, affine=s.get("bn_affine", True)))
                 layers.append(nn.Linear(5, 3))
                 model = nn.Sequential(*layers)
                 xb = sg.randn(6, 4)
@@ -95,6 +107,11 @@ def run_program(prog, seed, sg=None, repeat_fixed=1):
                 put_t(loss, tag + ".loss")
             for p in params:
                 put_t(p, tag + ".param")
+            for m in model.submodules():
+                if hasattr(m, "running_mean") and m.running_mean is not None:
+                    put(m.running_mean.data, tag + ".rm"); put(m.running_var.data, tag + ".rv")
+            model.eval()
+            put_t(model(xb), tag + ".eval_out")
         elif k == "fixed":
             # fixed data, forward/backward through a DAG with fan-out; repeated `repeat_fixed` times
             step_digests = []
